@@ -85,9 +85,10 @@ theorem codegen_correct_cg (lv : Nat) (p : Program) (t : Tables) (hp : CgProg lv
   generalize hAL : Src.allocLabels b1 (Src.allRoutineLabels ((p.routines.map (·.body)).map fun b => (⟨some (toSrcStmts b)⟩ : Src.Routine))) = AL
     at hg ainv acov
   have hb1 : (tbl b1).length = 1 := rfl
-  let cx : Cx := { rs := t2.ops, N := (toSrc p).graph.nodes.toList, hlab := hlab, Z := AL.2.length + 1, named := sF.named, defs := allDefs p }
-  have hZ : cx.Z = (tbl AL.1).length := by
-    show AL.2.length + 1 = _
+  let cx : Cx := { rs := t2.ops, N := (toSrc p).graph.nodes.toList, hlab := hlab, Z := fun i => 0 < i ∧ i < AL.2.length + 1, named := sF.named, defs := allDefs p }
+  have hZ : ∀ i, cx.Z i → i < (tbl AL.1).length := by
+    intro i hi
+    have hi' : 0 < i ∧ i < AL.2.length + 1 := hi
     rw [ainv.len, hb1]; omega
   have henv : EnvOK cx ({ labels := AL.2 } : Src.Env) := ⟨rfl, rfl, fun n i h => by
     have := ainv.node n i h
@@ -111,7 +112,7 @@ theorem codegen_correct_cg (lv : Nat) (p : Program) (t : Tables) (hp : CgProg lv
     rw [hg]; rfl
   have hlenAL : 0 < (tbl AL.1).length := by have := ainv.pushes.len; omega
   have hN0 : cx.N[0]? = some (.halt evReturn) := by
-    rw [hN, g1.get0 hlenAL, ainv.pushes.same (by rw [hb1]; omega)]
+    rw [hN, g1.get (i := 0) (fun hz => by have hz' : 0 < 0 ∧ 0 < AL.2.length + 1 := hz; omega) hlenAL, ainv.pushes.same (by rw [hb1]; omega)]
     rfl
   -- the claim about all user labels of the program
   let C : Nat → Nat → Prop := fun m jj => ∀ n id, n ∈ cx.defs → cx.named.lookup n = some id →
@@ -129,9 +130,9 @@ theorem codegen_correct_cg (lv : Nat) (p : Program) (t : Tables) (hp : CgProg lv
     have hmem : r' ∈ p.routines := List.mem_of_getElem? hj'
     have piece := cStmts_c cx fuel lv r'.body lb (hall r' hmem) (hml r' hmem) _ henv _ _ _ hrun
     have hag : AgreeOn cx.N cx.Z bj (Src.trStmts fuel [] { labels := AL.2 } (toSrcStmts r'.body) 0 bj).1 := by
-      refine ⟨by rw [hZ]; exact hst.len, fun i h1 h2 => ?_⟩
+      refine ⟨fun i hz => Nat.lt_of_lt_of_le (hZ i hz) hst.len, fun i h1 h2 => ?_⟩
       rw [hN]
-      exact hfin.get (by have := hst.len; rw [hZ]; omega) h2
+      exact hfin.get (fun hz => by have := hZ i hz; have := hst.len; omega) h2
     have hplaced : Placed cx.rs j' 0 ops := by
       rcases hshape with rfl | ⟨o, rfl⟩
       · exact ⟨[], [], by simpa using hits, rfl⟩
@@ -171,7 +172,7 @@ theorem codegen_correct_cg (lv : Nat) (p : Program) (t : Tables) (hp : CgProg lv
       obtain ⟨j0, hj0, hget0⟩ := List.getElem_of_mem hr0
       have hj0' : p.routines[j0]? = some r0 := by rw [List.getElem?_eq_getElem hj0, hget0]
       obtain ⟨bj0, _, hfin0, hst0⟩ := paths j0 r0.body (by simp [hj0'])
-      obtain ⟨kn0, hk0⟩ := (trStmts_good cx fuel (toSrcStmts r0.body) _ henv 0 bj0).2 (by rw [hZ]; exact hst0.len) n
+      obtain ⟨kn0, hk0⟩ := (trStmts_good cx fuel (toSrcStmts r0.body) _ henv 0 bj0).2 (fun i' hz' => Nat.lt_of_lt_of_le (hZ i' hz') hst0.len) n
         (dfs_sub r0.body n hn0) i hlk
       obtain ⟨kn, hkn⟩ := hfin0.keeps_silent hk0
       have hne : (tbl (((p.routines.map (·.body)).map fun b => (⟨some (toSrcStmts b)⟩ : Src.Routine)).foldl
